@@ -3,6 +3,7 @@ import re
 
 from sa import mir, tables, flow, locks
 from sa.mir import backslice, AnchorMissing
+from rules import C11
 
 TITLE = ("C06: probe and in-flight registration in one shard critical section; waiters taken are always sent to; leader/waiter arms; "
          "removal by leader id; error paths cache nothing; the origin fetch is built at most once; every task state that owns an in-flight entry answers on drop.")
@@ -284,4 +285,6 @@ def run(chk, F):
     chk.run_rule("C06.by-id", "take / fetch_or_take remove an entry by leader id only on equality", 2, by_id, F)
     chk.run_rule("C06.error-caches-nothing", "error / cancel / notify paths reach no insert", 3, error_caches_nothing, F)
     chk.run_rule("C06.single-fetch", "the origin fetch builder is invoked only in try_set_required and not after a disk hit", 2, single_fetch, F)
+    chk.run_rule("C06.superseded-fetch-abandons", "a fetch task whose in-flight entry was taken over (closed) neither polls its fetch nor inserts: both fetch arms test the flag first", 2, C11.fetch_checks, F)
+    chk.run_rule("C06.close-alias", "the close flag seen by the fetch task is the one the in-flight table sets", 1, C11.close_alias, F)
     chk.run_rule("C06.cancel-answers", "a fetch task dropped in any state that still owns the in-flight entry takes it by id and answers every waiter", 7, cancel_answers, F)
